@@ -58,7 +58,7 @@ RULES = [
     (r'^sub:arrival::curve::Curve::extrapolate_with_bound:p1\.0 - 1', 'the bound\'s interval length is >= 1: the only caller passes horizon + epsilon'),
     (r'^sub:<arrival::curve::Curve as arrival::ArrivalBound>::steps_iter:\$0\.1 - \$0\.0', 'the delta-min vector is non-decreasing (FromIterator enforces it; new() documents it), so consecutive differences are non-negative'),
     (r'^index:<<arrival::curve::Curve as arrival::ArrivalBound>::steps_iter::StepsIter', 'idx is kept in 0..step_sizes.len() by the modulo update; step_sizes is non-empty for a delta-min vector with a positive entry'),
-    (r'^sub:<arrival::dmin::DeltaMinIterator.*case\(p0\.(next_step|#\d), Some, 0\) - 1', 'items of steps_iter are interval lengths >= 1 (C11); next_step holds such an item'),
+    (r'^sub:<arrival::dmin::DeltaMinIterator.*case\((p0|loopvar)\.(next_step|#\d), Some, 0\) - 1', 'items of steps_iter are interval lengths >= 1 (C11); next_step holds such an item'),
     (r'^index:<arrival::arrival_curve_prefix::ArrivalCurvePrefix as arrival::ArrivalBound>::number_arrivals:p0\.steps\[', 'i is either an enumerate() index of steps (< len) or steps.len(); the enclosing branch gives i > 0'),
     (r'^index:.*@lookup$', 'i is either an enumerate() index of steps (< len) or steps.len(); the enclosing branch gives i > 0'),
     (r'^sub:time::Offset::closed_from_time_zero:p0 - 1$', 'API precondition delta >= 1 ("closed interval [0,X] of length delta"); the obligation is checked at every crate-internal call site instead (keys ending in @closed_from_time_zero)'),
@@ -72,7 +72,7 @@ def main():
     for cfg in ('dbg', 'rel'):
         path, _ = extract.extract_repo('/repo', cfg); c = Crate(path); os.remove(path)
         for b in c.body_list:
-            if sites.skip_body(b) or sites.is_private_helper(c, b):
+            if sites.skip_body(b) or sites.is_private_helper(c, b) or b.path in sites.context_helpers(c):
                 continue
             ev, ss = sites.collect(c, b)
             for s in ss:
